@@ -300,12 +300,12 @@ def run_check(prop: str, tier: str, seed: int, replay: str | None = None) -> int
                                  f"second pass with soft={soft}s\n")
             while pending and len(running) < maxpar:
                 m, i = pending.pop(0)
-                out = os.path.join(scratch, f"r-{m}-{i}.json")
-                wd = os.path.join(scratch, f"w-{m}-{i}")
+                out = os.path.join(scratch, f"r{attempt}-{m}-{i}.json")
+                wd = os.path.join(scratch, f"w{attempt}-{m}-{i}")
                 cmd = [PYTHON, "-m", "vf.shard", prop, "--tier", tier, "--seed", str(seed),
                        "--shard", str(i), "--nshards", str(nshards), "--mode", m,
                        "--workdir", wd, "--soft", str(soft), "--out", out]
-                log = open(os.path.join(scratch, f"log-{m}-{i}.txt"), "w")
+                log = open(os.path.join(scratch, f"log{attempt}-{m}-{i}.txt"), "w")
                 p = subprocess.Popen(cmd, cwd=VERIF_DIR, env=env, stdout=log, stderr=subprocess.STDOUT)
                 running.append((p, m, i, out, time.monotonic(), log))
             time.sleep(0.05)
